@@ -8,11 +8,15 @@
    of a box's level, index range and data).  Compared byte for byte with
    Chef.cook on every run.  PROVED for every layout: the per-file scan, and the
    mapping of the per-file results back to box order (C11_level_any_layout);
-   the header text is tied to the code by the correspondence (partial proof).  Cantera-backed recipes share the skeleton; their values are
+   and THE WHOLE TOOL for user recipes (C11_tool): on the directory image of
+   every well-formed 3D plotfile the model writes the directory image of the
+   cooked plotfile - binary files, level headers and global header.  The
+   decimal printing of the minima / maxima is outside the model (bit patterns).  Cantera-backed recipes share the skeleton; their values are
    Cantera's (oracle). *)
 From AK Require Import Base.Prelude Bytes.Text Bytes.FabHeader Bytes.BinFile
   Reader.Select Reader.BoxRead Reader.Level Reader.ReadSpec
-  Plotfile.TextHeader Taste.Taste Plotfile.Abstract Writers.Colander Writers.Chef Writers.ChefProofs Writers.ChefLevelProofs.
+  Plotfile.TextHeader Plotfile.HeaderSpec Taste.Taste Plotfile.Abstract Writers.Colander Writers.ColanderSpec
+  Writers.Chef Writers.ChefProofs Writers.ScatterProofs Writers.ChefLevelProofs Writers.RelistProofs Writers.ChefToolProofs.
 
 (* The scan of a binary file holding ANY list of well-formed 3D boxes cooks
    every box, in file order, and stops at end of file: the output file is the
@@ -100,3 +104,92 @@ Example C11_order_examples :
   = (true, true, true, true, true, false, mtwo, two).
 Proof. vm_compute. reflexivity. Qed.
 Print Assumptions C11_level_any_layout.
+
+(* THE WHOLE TOOL (user recipes of the plotfile data).  For every well-formed 3D
+   plotfile - any number of levels and boxes, any distribution of the boxes over
+   binary files, any on-disk order -, every list of kept field indices and every
+   recipe that answers on each box with components of the box's size, the model
+   of Chef(...).cook() applied to the directory image of the plotfile returns the
+   directory image of [chef_spec]: on the same mesh and in the same layout every
+   box holds the kept components bit for bit followed by the recipe's; the level
+   headers state the new offsets IN BOX ORDER and, per box, the minima / maxima
+   of exactly its components; the global header names the output fields. *)
+Theorem C11_tool : forall recipe keep outnames pf,
+  wf_plotfile pf -> std_dirs pf -> g_ndims (pf_g pf) = 3 -> 0 <= g_max_level (pf_g pf) ->
+  Forall (fun i => 0 <= i < pf_nfields pf) keep ->
+  (forall k pl, nth_error (pf_levels pf) k = Some pl -> recipe_fits recipe keep outnames k pl) ->
+  chef recipe keep outnames (pf_disk pf) = Some (pf_disk (chef_spec recipe keep outnames pf)).
+Proof. exact chef_refines. Qed.
+Print Assumptions C11_tool.
+
+(* listing the binary files of a level in another order changes neither its
+   well-formedness nor where any box lies (the tool lists them by sorted name) *)
+Theorem C11_file_listing_irrelevant : forall lv, wf_level lv = true ->
+  wf_level (sorted_lv lv) = true /\ cells_or_nil (sorted_lv lv) = cells_or_nil lv /\ lv_fabs (sorted_lv lv) = lv_fabs lv.
+Proof. intros lv H. split; [exact (wf_sorted lv H)|]. split; [exact (sorted_cells lv H) | reflexivity]. Qed.
+Print Assumptions C11_file_listing_irrelevant.
+
+(* non-vacuity of C11_tool: a two-level 3D plotfile with two fields whose level 1
+   lies in one file in the on-disk order (1, 0); the recipe returns a copy of the
+   first component; field 1 is kept *)
+Definition ex11_g : gheader :=
+  {| g_version := [bs "HyperCLaw-V1.1"]; g_names := [bs "a"; bs "b"];
+     g_ndims := 3; g_time := bs "0.5"; g_max_level := 1;
+     g_geo_low := [bs "0.0"; bs "0.0"; bs "0.0"]; g_geo_high := [bs "2.0"; bs "1.0"; bs "1.0"];
+     g_factors := [2]; g_grid_hi := [[1; 0; 0]; [3; 1; 1]]; g_steps := [7; 7];
+     g_dx := [[bs "1.0"; bs "1.0"; bs "1.0"]; [bs "0.5"; bs "0.5"; bs "0.5"]]; g_sys_coord := [bs "0"] |}.
+Definition ex11_bytes (n : nat) (c : ascii) : bytes := repeat c n.
+Definition ex11_pf : plotfile :=
+  {| pf_g := ex11_g;
+     pf_levels :=
+       [ {| pl_boxes := {| lb_ncells := 1; lb_step_line := [bs "7"];
+                           lb_boxes := [[(bs "0.0", bs "2.0"); (bs "0.0", bs "1.0"); (bs "0.0", bs "1.0")]];
+                           lb_cell_dir := bs "Level_0"; lb_time_tok := bs "0.5" |};
+            pl_level := {| lv_fabs := [ {| fab_lo := [0; 0; 0]; fab_hi := [1; 0; 0]; fab_nc := 2;
+                                           fab_data := ex11_bytes 16 "a"%char ++ ex11_bytes 16 "b"%char |} ];
+                           lv_files := [ (bs "Cell_D_00000", [0%nat]) ] |};
+            pl_mins := [[bs "1.0"; bs "2.0"]]; pl_maxs := [[bs "1.0"; bs "2.0"]] |};
+         {| pl_boxes := {| lb_ncells := 2; lb_step_line := [bs "7"];
+                           lb_boxes := [[(bs "0.0", bs "1.0"); (bs "0.0", bs "1.0"); (bs "0.0", bs "1.0")];
+                                        [(bs "1.0", bs "2.0"); (bs "0.0", bs "1.0"); (bs "0.0", bs "1.0")]];
+                           lb_cell_dir := bs "Level_1"; lb_time_tok := bs "0.5" |};
+            pl_level := {| lv_fabs := [ {| fab_lo := [0; 0; 0]; fab_hi := [1; 1; 1]; fab_nc := 2;
+                                           fab_data := ex11_bytes 64 "c"%char ++ ex11_bytes 64 "d"%char |};
+                                        {| fab_lo := [2; 0; 0]; fab_hi := [3; 1; 1]; fab_nc := 2;
+                                           fab_data := ex11_bytes 64 "e"%char ++ ex11_bytes 64 "f"%char |} ];
+                           lv_files := [ (bs "Cell_D_00003", [1%nat; 0%nat]) ] |};
+            pl_mins := [[bs "1.0"; bs "2.0"]; [bs "1.0"; bs "2.0"]]; pl_maxs := [[bs "1.0"; bs "2.0"]; [bs "1.0"; bs "2.0"]] |} ] |}.
+Definition ex11_recipe (k : nat) (lo hi : list Z) (data : bytes) : option (list bytes) :=
+  Some [firstn (length data / 2) data].
+
+Ltac solve_ex11_step :=
+  match goal with
+  | |- _ /\ _ => split
+  | |- forall (k : nat) (pl : plevel), nth_error _ k = Some pl -> _ =>
+      intros [|[|[|k]]] pl H; cbn [nth_error] in H; try discriminate; injection H as <-
+  | |- ~ In _ _ => let H := fresh in intros H; cbn [In] in H; intuition discriminate
+  | |- ~ _ => let H := fresh in intros H; discriminate
+  | |- _ <> _ => discriminate
+  | |- _ \/ _ => first [left; reflexivity | right; reflexivity]
+  | |- _ => first [reflexivity | lia | constructor]
+  end.
+
+Example C11_ex_hyps :
+  (wf_plotfile ex11_pf /\ std_dirs ex11_pf /\ g_ndims (pf_g ex11_pf) = 3 /\ 0 <= g_max_level (pf_g ex11_pf) /\
+   Forall (fun i => 0 <= i < pf_nfields ex11_pf) [1]) /\
+  (forall k pl, nth_error (pf_levels ex11_pf) k = Some pl -> recipe_fits ex11_recipe [1] [bs "b"; bs "half"] k pl).
+Proof.
+  split.
+  - unfold wf_plotfile, std_dirs, wf_gheader, wf_plevel, wf_lvboxes, no_char. cbn.
+    repeat solve_ex11_step.
+  - intros [|[|[|k]]] pl H; cbn [nth_error ex11_pf pf_levels] in H; try discriminate; injection H as <-;
+      intros fb Hfb; cbn [pl_level lv_fabs In] in Hfb.
+    + destruct Hfb as [<-|[]]. split; [reflexivity|]. eexists. split; [reflexivity|].
+      split; [constructor; [vm_compute; reflexivity | constructor]|]. split; [left; discriminate | reflexivity].
+    + destruct Hfb as [<-|[<-|[]]]; (split; [reflexivity|]); eexists; (split; [reflexivity|]);
+        (split; [constructor; [vm_compute; reflexivity | constructor]|]); (split; [left; discriminate | reflexivity]).
+Qed.
+
+Example C11_ex_tool : chef ex11_recipe [1] [bs "b"; bs "half"] (pf_disk ex11_pf)
+  = Some (pf_disk (chef_spec ex11_recipe [1] [bs "b"; bs "half"] ex11_pf)).
+Proof. vm_compute. reflexivity. Qed.
